@@ -10,6 +10,7 @@ import (
 	"os"
 	"path/filepath"
 	"sort"
+	"strconv"
 	"strings"
 	"sync/atomic"
 
@@ -105,11 +106,37 @@ func sortLogNamesOldToNew(dirEntries []os.DirEntry) []string {
 	//   audit.log  audit.log.1  audit.log.2  audit.log.3  audit.log.4
 	//   $ test-app /var/log/audit/
 	//   [audit.log.4 audit.log.3 audit.log.2 audit.log.1 audit.log]
+	//
+	// The rotation number is compared as a number so that
+	// "audit.log.10" comes before "audit.log.9".
 	sort.Slice(oldestToNew, func(i, j int) bool {
+		ni, iok := logRotationNumber(oldestToNew[i])
+		nj, jok := logRotationNumber(oldestToNew[j])
+		if iok && jok && ni != nj {
+			return ni > nj
+		}
+
 		return oldestToNew[i] > oldestToNew[j]
 	})
 
 	return oldestToNew
+}
+
+// logRotationNumber returns the rotation number of an audit log file
+// name. The live log ("audit.log") is rotation zero. False is returned
+// if the name does not end with a rotation number.
+func logRotationNumber(name string) (int, bool) {
+	suffix := strings.TrimPrefix(name, "audit.log")
+	if suffix == "" {
+		return 0, true
+	}
+
+	n, err := strconv.Atoi(strings.TrimPrefix(suffix, "."))
+	if err != nil || n < 0 {
+		return 0, false
+	}
+
+	return n, true
 }
 
 // LogDirReader reads audit logs from a directory and tails the active
